@@ -82,7 +82,7 @@ typedef struct chan {
 	int cleanup_err, cleanup_fd_ok, cleanup_wrong_queue;
 } chan_t;
 
-typedef struct { int fd; const uint8_t *buf; size_t len, written; int style, pause_den, err; vf_rng_t rng; } feeder_t;
+typedef struct { int fd; const uint8_t *buf; size_t len, written; int style, pause_den, err; unsigned eof_gap_us; vf_rng_t rng; } feeder_t;
 typedef struct { int fd; uint8_t *got; size_t cap, n, hang_after; int style, overflow; unsigned linger_us; vf_rng_t rng; } drainer_t;
 
 typedef struct trial {
@@ -272,6 +272,7 @@ static void *feeder_main(void *arg)
 		if (f->pause_den && pauses < 80 && vf_rnd_n(&f->rng, (uint32_t)f->pause_den) == 0) { sleep_us(vf_rnd_range(&f->rng, 50, 2000)); pauses++; }
 	}
 	f->written = off;
+	if (f->eof_gap_us) sleep_us(f->eof_gap_us);   /* --eof-gap-us: let the reader see the last bytes and the hang-up as two events */
 	close(f->fd);
 	return NULL;
 }
@@ -423,6 +424,7 @@ static void start_feeder(trial_t *t)
 	if (f->style == FS_TINY && t->ctor == CT_CONV) f->style = FS_SMALL;
 	static const int dens[] = { 0, 16, 4, 1 };
 	f->pause_den = dens[vf_rnd_n(r, 4)];
+	f->eof_gap_us = (unsigned)vf_opt_long("eof-gap-us", 0);
 	vf_rng_seed(&f->rng, t->salt, 501);
 	if (pthread_create(&t->th, NULL, feeder_main, f)) vf_fail("pthread_create");
 	t->th_running = 1;
@@ -758,15 +760,14 @@ static void check_order(trial_t *t)
 			if (b->kind != a->kind || b->post || b->chan != a->chan) continue;
 			const char *dn = a->kind == K_READ ? "read" : "write";
 			int zero = !a->req || !b->req;
-			int viol = 0;
-			if (b->done_end < a->done_start) viol = 1;
-			else if (!zero && b->first_data_start && b->first_data_start < a->done_end) viol = 2;
+			/* only completion events are compared: progress invocations of a later operation may
+			 * interleave with an earlier one (per-operation delivery queues), the property is silent */
+			int viol = b->done_end < a->done_start;
 			if (!viol) continue;
 			op_brief(a, ba, sizeof(ba)); op_brief(b, bb, sizeof(bb));
 			int canc = a->err_done == ECANCELED || b->err_done == ECANCELED;
 			snprintf(k, sizeof(k), zero ? "C14:%s:zero-length-op-completes-out-of-order" : canc ? "C14:%s:ops-complete-out-of-order:cancelled-by-stop" : "C14:%s:ops-complete-out-of-order", dn);
-			VIOL(t, k, "stream channel: %s was submitted before %s, but %s", ba, bb,
-					viol == 1 ? "the later operation's done invocation returned before the earlier one's began" : "an invocation of the later operation that shows its I/O in progress (data read / bytes written) started before the earlier one's done invocation returned (serial handler queue)");
+			VIOL(t, k, "stream channel, serial handler queue: %s was submitted before %s, but the later operation's done invocation returned before the earlier one's began", ba, bb);
 			return;
 		}
 	}
